@@ -226,4 +226,10 @@ def run_snr(case, R):
     Nc = Nn.copy()
     r = set_snr(X, Nc, snr, inplace=True)
     R.check('C19.snr', np.array_equal(X, Xb) and r is None and abs(float(get_snr(X, Nc)) - snr) <= 1e-8, 'snr/inplace', 'set_snr(inplace=True) must rescale only N to the requested SNR')
+    # re-levelling: a second request (far from or very near to the current level - fine adjustment by 1e-3 .. 1e-6 dB) is honoured too
+    for delta in (float(rng.uniform(-20, 20)), float(rng.choice([-1, 1]) * 10 ** rng.uniform(-6, -3))):
+        snr2 = snr + delta
+        X3, N3 = set_snr(X2, N2, snr2, inplace=False)
+        got2 = float(get_snr(X3, N3))
+        R.check('C19.snr', abs(got2 - snr2) <= 1e-8, 'snr/round-trip-second', f'after set_snr to {snr:.6f} dB, set_snr to {snr2:.6f} dB gives get_snr = {got2:.8f}', dev=abs(got2 - snr2), delta=delta)
     R.mark_nontrivial('snr', list(lead), cplx)
